@@ -2,7 +2,7 @@
 """Confirms a seeded change delivered by a sub-agent and runs our check against it.
 
 usage: verify_seed.py <ID> <A|B> [--no-suite] [--tier quick]
- reads  /tmp/seed/<ID>/out/{patch_X.diff, demo_X.py, meta.json}
+ reads  /tmp/seed/<ID>/out/{patch_X.diff, demo_X.py, meta.json}   (round 2, variant C: /tmp/seed2/<ID>/out)
  1. scratch worktree of /repo HEAD (outside /repo and /verif), demo must exit 0 on it
  2. apply the patch; demo must exit non-zero; the pinned test-suite must keep all stable_pass tests passing
  3. ./check <ID> with ARTAP_TREE=<worktree> (evidence/replays redirected) -> CAUGHT / MISSED
@@ -27,7 +27,7 @@ def main():
     pid, x = sys.argv[1], sys.argv[2]
     suite = "--no-suite" not in sys.argv
     tier = sys.argv[sys.argv.index("--tier") + 1] if "--tier" in sys.argv else "quick"
-    src = "/tmp/seed/%s/out" % pid
+    src = ("/tmp/seed2/%s/out" if x >= "C" else "/tmp/seed/%s/out") % pid
     patch = os.path.join(src, "patch_%s.diff" % x)
     demo = os.path.join(src, "demo_%s.py" % x)
     kept = os.path.join(VERIF, "seeded", "%s-%s" % (pid, x))
